@@ -218,6 +218,9 @@ func runC17(c *Ctx) {
 	// streamed reads: the cafs leaf fetch takes exactly io.EOF as "leaf complete" (shared with C01/C03); failed reads fail
 	checkEOFByIdentity(c, "plumbing.read.eof-by-identity")
 	checkReadErrorsFail(c, "plumbing.read.errors-fail")
+	checkPopulateWalk(c, "populate.walk")
+	checkROErrorCodes(c, "plumbing.not-found")
+	checkGenericErrorDiscipline(c, "pkg/fuse")
 }
 
 // guardedUpdateFails: `if _, update := X.Insert(k, v); update { return <non-nil error> }`
@@ -315,7 +318,7 @@ func checkROInserter(c *Ctx, f *FuncInfo, wantType string, isDir bool) {
 		if !ok || len(as.Lhs) != 1 || len(as.Rhs) != 1 {
 			return true
 		}
-		if describeExprAt(f, as.Lhs[0]) == "recv.readDirMap[param#1]" &&
+		if _, isIndex := ast.Unparen(as.Lhs[0]).(*ast.IndexExpr); isIndex && describeExprAt(f, as.Lhs[0]) == "recv.readDirMap[param#1]" &&
 			describeExprAt(f, as.Rhs[0]) == "call:builtin.append(recv.readDirMap[param#1],lit:"+direntTypeID+")" {
 			stored = true
 		}
@@ -329,6 +332,15 @@ func checkROInserter(c *Ctx, f *FuncInfo, wantType string, isDir bool) {
 // zeroTestEdge: for condition cond over variable v compared with constant 0, which successor (0 true, 1 false)
 // is the "v == 0" edge; -1 if cond is not such a test.
 func zeroTestEdge(info *types.Info, cond ast.Expr, v *types.Var) int {
+	if u, ok := ast.Unparen(cond).(*ast.UnaryExpr); ok && u.Op == token.NOT {
+		switch zeroTestEdge(info, u.X, v) {
+		case 0:
+			return 1
+		case 1:
+			return 0
+		}
+		return -1
+	}
 	be, ok := ast.Unparen(cond).(*ast.BinaryExpr)
 	if !ok {
 		return -1
@@ -403,6 +415,7 @@ func checkDirentWriteFlow(c *Ctx, f *FuncInfo, resume func(b *Body, w *ast.CallE
 	// dataflow: bit0 buffer-has-room / bit1 buffer-full ; bit2 last write accounted / bit3 pending
 	const room, full, accounted, pending = 1, 2, 4, 8
 	var badFull, badPending []ast.Node
+	nZeroTests := 0
 	isAccount := func(n ast.Node) bool {
 		as, ok := n.(*ast.AssignStmt)
 		if !ok || len(as.Lhs) != 1 || len(as.Rhs) != 1 {
@@ -451,6 +464,7 @@ func checkDirentWriteFlow(c *Ctx, f *FuncInfo, resume func(b *Body, w *ast.CallE
 			if e < 0 {
 				return s
 			}
+			nZeroTests++
 			if i == e {
 				// n == 0: nothing was written, the buffer is full
 				return full | accounted
@@ -458,6 +472,9 @@ func checkDirentWriteFlow(c *Ctx, f *FuncInfo, resume func(b *Body, w *ast.CallE
 			return s&^full | room
 		},
 	})
+	if nZeroTests == 0 {
+		c.fail("readdir.no-write-after-full", f.ID, p.Pos(writes[0].Pos()), "the result of WriteDirent is never compared with 0: an entry that does not fit is not detected, the listing goes on after it and the kernel never sees the skipped child")
+	}
 	c.check(len(badFull) == 0, "readdir.no-write-after-full", f.ID, p.Pos(writes[0].Pos()),
 		"after a WriteDirent that returned 0 no further WriteDirent is reachable ("+itoa(len(writes))+" write site)",
 		"a WriteDirent is reachable after one that returned 0 (entry did not fit): a later, shorter entry is written after the gap, the kernel resumes after that entry's offset and the skipped child is never listed")
@@ -1417,4 +1434,281 @@ func checkFuseKeys(c *Ctx, rule string) {
 		return true
 	})
 	c.check(okFL, rule, fl.ID, p.Pos(fl.Decl.Pos()), "formLookupKey = formKey(parent) ++ name", "formLookupKey is no longer formKey(parent) followed by the child name")
+}
+
+// checkPopulateWalk (C17): the upward walk of WithNodesFromEntry — found by the systematic mutation sweep to be
+// unconstrained by the parent-link dataflow alone:
+//   parentPath = path.Dir(nameWithPath) each round; the walk stops at the root exactly when parentPath is "", "." or "/";
+//   when the parent directory is not known yet a directory entry is made for parentPath, nameWithPath becomes parentPath
+//   and the walk continues; when it is known the walk stops.
+func checkPopulateWalk(c *Ctx, rule string) {
+	p := c.P
+	f := p.Func("pkg/fuse.populate.WithNodesFromEntry")
+	info := f.Info()
+	roles := map[types.Object]string{}
+	// nameWithPath: the variable initialised from the bundle entry's path and handed to path.Dir
+	var loop *ast.ForStmt
+	ast.Inspect(f.Decl.Body, func(n ast.Node) bool {
+		if fs, ok := n.(*ast.ForStmt); ok && loop == nil && fs.Cond == nil {
+			loop = fs
+		}
+		return true
+	})
+	if loop == nil {
+		c.softUndecided("%s: WithNodesFromEntry no longer walks up with an unconditional for loop", rule)
+		return
+	}
+	if vs := lhsVars(info, loop.Body, func(e ast.Expr) bool {
+		call, ok := ast.Unparen(e).(*ast.CallExpr)
+		return ok && calleeID(info, call) == "path.Dir" && len(call.Args) == 1
+	}); len(vs) == 1 && vs[0] != nil {
+		roles[vs[0]] = "parentPath"
+		// its argument is the walking variable
+		ast.Inspect(loop.Body, func(n ast.Node) bool {
+			if call, ok := n.(*ast.CallExpr); ok && calleeID(info, call) == "path.Dir" {
+				if id, ok := ast.Unparen(call.Args[0]).(*ast.Ident); ok {
+					roles[info.Uses[id]] = "nameWithPath"
+				}
+			}
+			return true
+		})
+	}
+	// found flag of the dirStore lookup
+	if vs := lhsVars(info, loop.Body, func(e ast.Expr) bool {
+		call, ok := ast.Unparen(e).(*ast.CallExpr)
+		return ok && calleeID(info, call) == iradixTxnGet
+	}); len(vs) == 2 && vs[1] != nil {
+		roles[vs[1]] = "found"
+		if vs[0] != nil {
+			roles[vs[0]] = "parent"
+		}
+	}
+	// the walking variable starts at the entry's own path
+	okStart := false
+	for o, r := range roles {
+		if r != "nameWithPath" {
+			continue
+		}
+		for _, d := range defsOfVarWithIndex(f, o.(*types.Var)) {
+			if d.rhs != nil && d.start < loop.Pos() && describeExprAt(f, d.rhs) == "recv.bundleEntry.NameWithPath" {
+				okStart = true
+			}
+		}
+	}
+	c.check(okStart, rule, f.ID+":start", p.Pos(loop.Pos()), "the walk starts at the bundle entry's own path", "the upward walk no longer starts at the bundle entry's NameWithPath")
+	// root test
+	var rootIf *ast.IfStmt
+	var lookupIf *ast.IfStmt
+	for _, st := range loop.Body.List {
+		ifs, ok := st.(*ast.IfStmt)
+		if !ok {
+			continue
+		}
+		var parts []string
+		for _, d := range disjuncts(ifs.Cond) {
+			parts = append(parts, roleCmp(info, d, roles, "parentPath"))
+		}
+		sortStrings(parts)
+		if strings.Join(parts, "|") == `parentPath==""|parentPath=="."|parentPath=="/"` {
+			rootIf = ifs
+		}
+		if d := roleString(info, ifs.Cond, roles); d == "!found" || d == "found" {
+			lookupIf = ifs
+		}
+	}
+	okRoot := false
+	if rootIf != nil && len(rootIf.Body.List) > 0 {
+		if br, ok := rootIf.Body.List[len(rootIf.Body.List)-1].(*ast.BranchStmt); ok && br.Tok == token.BREAK {
+			okRoot = true
+		}
+	}
+	c.check(okRoot, rule, f.ID+":root", p.Pos(loop.Pos()),
+		"the walk stops under the root exactly when path.Dir gives \"\", \".\" or \"/\"",
+		"the root test of the upward walk is no longer `parentPath == \"\" || parentPath == \".\" || parentPath == \"/\"` ending in break: entries directly under the root are linked to a spurious directory, or the walk never ends")
+	okMiss, okHit := false, false
+	if lookupIf != nil {
+		missBlk, hitBlk := lookupIf.Body, (*ast.BlockStmt)(nil)
+		if eb, ok := lookupIf.Else.(*ast.BlockStmt); ok {
+			hitBlk = eb
+		}
+		if roleString(info, lookupIf.Cond, roles) == "found" {
+			missBlk, hitBlk = hitBlk, lookupIf.Body
+		}
+		if missBlk != nil {
+			adv, mk, cont := false, false, false
+			for _, st := range missBlk.List {
+				switch s := st.(type) {
+				case *ast.AssignStmt:
+					if len(s.Lhs) == 1 && len(s.Rhs) == 1 && roleString(info, s.Lhs[0], roles) == "nameWithPath" && roleString(info, s.Rhs[0], roles) == "parentPath" {
+						adv = true
+					}
+					if len(s.Rhs) == 1 {
+						if call, ok := ast.Unparen(s.Rhs[0]).(*ast.CallExpr); ok && calleeID(info, call) == "pkg/fuse.newFsEntry" && len(call.Args) == 4 {
+							if inner, ok := ast.Unparen(call.Args[0]).(*ast.CallExpr); ok && calleeID(info, inner) == "pkg/fuse.newBundleEntry" && len(inner.Args) == 1 && roleString(info, inner.Args[0], roles) == "parentPath" {
+								if dl, ok := repoConst(p, "pkg/fuse", "dirLinkCount"); ok && describeExpr(f, call.Args[3], 0) == constDesc(dl) {
+									mk = true
+								}
+							}
+						}
+					}
+				case *ast.BranchStmt:
+					cont = s.Tok == token.CONTINUE
+				}
+			}
+			okMiss = adv && mk && cont
+		}
+		// the hit branch (or the code after the if) ends the walk
+		if hitBlk != nil {
+			okHit = true
+			for _, st := range hitBlk.List {
+				if br, ok := st.(*ast.BranchStmt); ok && br.Tok == token.CONTINUE {
+					okHit = false
+				}
+			}
+		}
+		// after the if, the loop body ends with break
+		if l := len(loop.Body.List); l > 0 {
+			if br, ok := loop.Body.List[l-1].(*ast.BranchStmt); !ok || br.Tok != token.BREAK {
+				okHit = false
+			}
+		}
+	}
+	c.check(okMiss, rule, f.ID+":unknown-parent", p.Pos(loop.Pos()),
+		"an unknown parent gets a directory entry for parentPath (directory link count), the walk moves up to it and continues",
+		"when the parent directory is not known yet the walk no longer (creates a directory entry for parentPath with the directory link count, sets nameWithPath = parentPath, continues): intermediate directories are missing, duplicated, or the walk loops forever")
+	c.check(okHit, rule, f.ID+":known-parent", p.Pos(loop.Pos()),
+		"a known parent ends the walk", "a known parent no longer ends the upward walk (break): its ancestors are queued again and their insertion fails with ErrUnexpectedUpdate, or the walk never ends")
+}
+
+func sortStrings(xs []string) {
+	for i := 1; i < len(xs); i++ {
+		for j := i; j > 0 && xs[j] < xs[j-1]; j-- {
+			xs[j], xs[j-1] = xs[j-1], xs[j]
+		}
+	}
+}
+
+// checkROErrorCodes (C17): a name / inode / directory that is not in the tables answers ENOENT, in every operation.
+func checkROErrorCodes(c *Ctx, rule string) {
+	p := c.P
+	enoentDesc := "const:?"
+	if v, ok := importedConst(p, "pkg/fuse", "github.com/jacobsa/fuse", "ENOENT"); ok {
+		enoentDesc = constDesc(v)
+	}
+	for _, fid := range []string{
+		"pkg/fuse.readOnlyFsInternal.LookUpInode", "pkg/fuse.readOnlyFsInternal.GetInodeAttributes", "pkg/fuse.readOnlyFsInternal.OpenDir",
+		"pkg/fuse.readOnlyFsInternal.ReadDir", "pkg/fuse.readOnlyFsInternal.ReadFile",
+	} {
+		f := p.Func(fid)
+		info := f.Info()
+		// every two-value table lookup `v, found := T.Get(k)` / `v, found := m[k]` has a `!found` branch assigning/returning ENOENT
+		nLook, nOK := 0, 0
+		ast.Inspect(f.Decl.Body, func(n ast.Node) bool {
+			as, ok := n.(*ast.AssignStmt)
+			if !ok || len(as.Lhs) != 2 || len(as.Rhs) != 1 {
+				return true
+			}
+			isLookup := false
+			switch r := ast.Unparen(as.Rhs[0]).(type) {
+			case *ast.CallExpr:
+				isLookup = calleeID(info, r) == iradixTreeGet
+			case *ast.IndexExpr:
+				_, isMap := info.TypeOf(r.X).Underlying().(*types.Map)
+				isLookup = isMap
+			}
+			if !isLookup {
+				return true
+			}
+			fid2, ok := as.Lhs[1].(*ast.Ident)
+			if !ok {
+				return true
+			}
+			fv, _ := info.Defs[fid2].(*types.Var)
+			if fv == nil {
+				fv, _ = info.Uses[fid2].(*types.Var)
+			}
+			nLook++
+			ast.Inspect(f.Decl.Body, func(m ast.Node) bool {
+				ifs, ok := m.(*ast.IfStmt)
+				if !ok {
+					return true
+				}
+				var failBlock *ast.BlockStmt
+				if u, ok := ast.Unparen(ifs.Cond).(*ast.UnaryExpr); ok && u.Op == token.NOT && isVar(info, u.X, fv) {
+					failBlock = ifs.Body
+				} else if isVar(info, ifs.Cond, fv) {
+					if eb, ok := ifs.Else.(*ast.BlockStmt); ok {
+						failBlock = eb
+					}
+				}
+				if failBlock == nil {
+					return true
+				}
+				enoent := false
+				ast.Inspect(failBlock, func(q ast.Node) bool {
+					switch s := q.(type) {
+					case *ast.AssignStmt:
+						for _, r := range s.Rhs {
+							if describeExpr(f, r, 0) == enoentDesc {
+								enoent = true
+							}
+						}
+					case *ast.ReturnStmt:
+						for _, r := range s.Results {
+							if describeExpr(f, r, 0) == enoentDesc {
+								enoent = true
+							}
+						}
+					}
+					return true
+				})
+				returns := false
+				if l := len(failBlock.List); l > 0 {
+					_, returns = failBlock.List[l-1].(*ast.ReturnStmt)
+				}
+				if enoent && returns {
+					nOK++
+				}
+				return true
+			})
+			return true
+		})
+		c.check(nLook > 0 && nOK >= nLook, rule, fid, p.Pos(f.Decl.Pos()),
+			"every table lookup answers ENOENT and returns when the entry is absent ("+itoa(nLook)+" lookups)",
+			fid+" has "+itoa(nLook)+" table lookups but only "+itoa(nOK)+" `not found -> ENOENT, return` branches: an absent name, inode or directory is answered with another code or with stale data")
+	}
+	// readAtBundle: the staged copy serves exactly the non-streamed mode
+	f := p.Func("pkg/fuse.readOnlyFsInternal.readAtBundle")
+	info := f.Info()
+	okMode := false
+	ast.Inspect(f.Decl.Body, func(n ast.Node) bool {
+		ifs, ok := n.(*ast.IfStmt)
+		if !ok || nos(describeExpr(f, ifs.Cond, 0)) != "!recv.streamed" {
+			return true
+		}
+		inThen, after := false, false
+		ast.Inspect(ifs.Body, func(m ast.Node) bool {
+			if call, ok := m.(*ast.CallExpr); ok && calleeID(info, call) == "pkg/storage.Store.GetAt" {
+				inThen = true
+			}
+			return true
+		})
+		ast.Inspect(f.Decl.Body, func(m ast.Node) bool {
+			if call, ok := m.(*ast.CallExpr); ok && calleeID(info, call) == "pkg/cafs.Fs.GetAt" && call.Pos() > ifs.End() {
+				after = true
+			}
+			return true
+		})
+		endsReturn := false
+		if l := len(ifs.Body.List); l > 0 {
+			_, endsReturn = ifs.Body.List[l-1].(*ast.ReturnStmt)
+		}
+		okMode = inThen && after && endsReturn
+		return true
+	})
+	c.check(okMode, rule, f.ID+":mode", p.Pos(f.Decl.Pos()), "a non-streamed mount reads the staged copy, a streamed mount reads through cafs", "readAtBundle no longer reads the staged copy exactly when the mount is not streamed (and cafs otherwise)")
+	// errors of the backends make the read fail
+	checkNoSwallow(c, rule+".backend-errors", f, func(id string) bool {
+		return id == "pkg/storage.Store.GetAt" || id == "pkg/cafs.Fs.GetAt" || id == "pkg/cafs.KeyFromString"
+	}, nil)
 }
